@@ -86,6 +86,7 @@ func runC06(c *Ctx) {
 	c.charstringDecryption()
 	c.readDefaults()
 	c.lenIVFlowB()
+	c.subrsTableB()
 	c.seacRules()
 	c.glyphOpSwitches()
 	c.glyphOpLiterals()
